@@ -12,7 +12,7 @@ From stdpp Require Import base option list numbers fin_maps nmap.
 From Verif.Base Require Import Bytes.
 From Verif.Codec Require Import Packets Decode Encode.
 From Verif.Gateway Require Import GwTypes GwStep GwWf GwWfDec Sound_C06.
-From Verif.Client Require Import ClTypes ClStep.
+From Verif.Client Require Import ClTypes ClStep Sound_Client Sound_C06c.
 From Verif.Checkers Require Import ChkCodec ChkGw ChkGw4 ChkCl ChkCl3.
 Open Scope N_scope.
 
@@ -79,3 +79,13 @@ Definition c06_chist : list cl_event :=
 Theorem C06_client_refuted : ~ C06_client_statement.
 Proof. intros H. specialize (H c06_ccfg c06_chist). vm_compute in H. destruct H as (_ & _ & _ & H & _). discriminate H. Qed.
 Print Assumptions C06_client_refuted.
+
+(* The positive part for the client library: on EVERY step from ANY state (datagrams made of bytes), the
+   only failure of the client-side clause is the interference one (clause 7: the gateway's QoS 2 PUBLISH
+   carries the message ID of an exchange the client itself started); a QoS 2 PUBLISH with any other ID -
+   fresh, or of an earlier QoS 2 PUBLISH of the gateway - is answered with PUBREC. *)
+Theorem C06_client_only_interference_fails :
+  forall cfg s ev, wf_cl_event ev ->
+    forall c, In c (chk_C06c cfg s ev (snd (cl_step cfg s ev))) -> c < 10.
+Proof. exact chk_C06c_only_interference. Qed.
+Print Assumptions C06_client_only_interference_fails.
